@@ -98,6 +98,11 @@ def monitor_case(c):
                 fail("stop accepted (code %d) while the DAG is not running" % code, **{"class": "stop-while-not-running"})
             if act in ("mark-success", "mark-failed") and running and (code == 200 or not same):
                 fail("status edit accepted (code %d) while the DAG is running" % code, **{"class": "mark-while-running"})
+            if s.get("phase_before") == "handler" and s.get("phase_after") == "handler" and \
+                    act in ("start", "mark-success", "mark-failed") and (code == 200 or s["spawns"] or not same):
+                fail("%s accepted (code %d, %d spawn, history %s) while the run is in progress: all its steps have ended and its exit "
+                     "handler is executing (the process is alive and still owns the run's history file)"
+                     % (act, code, len(s["spawns"]), "unchanged" if same else "CHANGED"), **{"class": "accepted-during-lifecycle-handler"})
             if act in ("mark-success", "mark-failed") and s["name"] in hung and (code == 200 or not same):
                 fail("status edit accepted (code %d) while the DAG's process is alive (it owns the control socket) but does not "
                      "answer: the history of a running run was edited" % code, **{"class": "mark-while-unresponsive"})
@@ -350,7 +355,7 @@ def run_tool_cases(ctx, tool, args, seed=None):
     return rows[0], rows[1:], out
 
 
-OBSERVED = ("dump", "code", "spawns", "stops", "diff", "note", "loc", "q_before", "q_after", "argv", "saw", "saw_env", "want", "want_env", "exec_note")
+OBSERVED = ("phase_before", "phase_after", "dump", "code", "spawns", "stops", "diff", "note", "loc", "q_before", "q_after", "argv", "saw", "saw_env", "want", "want_env", "exec_note")
 
 
 def strip(c, upto=None):
@@ -444,7 +449,7 @@ def run(ctx, replay_cases=None):
                 a = (s.get("body") or {}).get("action") if s["kind"] == "post" else s["kind"]
                 actions[str(a)] = actions.get(str(a), 0) + 1
                 codes[str(s["code"])] = codes.get(str(s["code"]), 0) + 1
-        if c["stream"] in ("table", "table-shapes", "table-unresponsive"):
+        if c["stream"] in ("table", "table-shapes", "table-unresponsive", "table-big"):
             last = c["steps"][-1]
             table.setdefault(c["row"], {})[c["state"]] = last["code"]
         if any(s["kind"] == "post" and s["code"] == 200 for s in c["steps"][4:]):
@@ -461,7 +466,7 @@ def run(ctx, replay_cases=None):
     # ---- model -----------------------------------------------------------------------------
     good = [c for c in cases if not c.get("fatal")]
     # the realrun cases use a per-case definition text (a script path inside): monitors only
-    for c, i, code in model_check(ctx, [c for c in good if c["stream"] != "realrun"], texts):
+    for c, i, code in model_check(ctx, [c for c in good if c["stream"] not in ("realrun", "real-agent")], texts):
         s = c["steps"][i]
         ctx.fail("correspondence", "model and implementation differ at step %d (%s %s %s): %s; implementation answered %d" %
                  (i, s["kind"], s.get("name", ""), (s.get("body") or {}).get("action"), CODES.get(code, code), s["code"]),
@@ -494,6 +499,9 @@ def run(ctx, replay_cases=None):
         "history at the abstract level (location -> runs -> status lines), run stamps distinct; latestStatusToday=false",
         "start parameters end to end: for 10 parameter strings the spawned argv is executed with the real blackdagger binary built from "
         "the tree under test (start on a one-step DAG); recorded Status.Params and the step's $NAME are compared with dag.Load of the given string",
+        "a real agent (in the driver's process) runs a DAG with a slow exit handler; start / mark-* issued while the handler executes must be "
+        "refused (monitor only: the Api model has no lifecycle phases - a live agent answers running until it is gone); a live agent whose "
+        "status JSON exceeds 64 KiB (400 steps) is one of the running states of the table",
         "handlers are called directly (the swagger layer in front of them, which rejects unknown / missing actions earlier, is bypassed)",
         "re-implemented on strings: escapeArg, removeQuotes (bytes; parameters are valid UTF-8 after JSON decoding), name -> path rules of DagStore",
     ]
